@@ -157,6 +157,7 @@ Next == \E k \in Keys :
           \/ SetTagLit(k, "x") \/ SetTag1(k) \/ DropKey(k) \/ SetMeasDel(k)
           \/ \E how \in {"attr", "inflist"} : SetTagUnconv(k, how)
           \/ \E k2 \in Keys \ {k} : SetTagFrom(k, k2) \/ Rename(k, k2)
+          \/ Rename(k, k)                 \* renaming a key onto itself (also through its alias) changes nothing
           \/ \E T \in CastTypes : Cast(k, T)
 Spec == Init /\ [][Next]_vars
 
